@@ -71,7 +71,10 @@ Proof.
   rewrite Hs. cbn [bind]. apply IHfuel. lia.
 Qed.
 Lemma valid_topic_name_impl_total : forall must p, exists b, valid_topic_name_impl must p = Ok b.
-Proof. intros. apply valid_topic_name_loop_safe. lia. Qed.
+Proof.
+  intros. unfold valid_topic_name_impl. destruct p; [eexists; reflexivity|].
+  apply valid_topic_name_loop_safe. lia.
+Qed.
 
 (* ---- ValidTopicFilter ---- *)
 Lemma valid_topic_filter_loop_safe : forall fuel must prev p, (length p < fuel)%nat ->
@@ -83,6 +86,7 @@ Proof.
   destruct (rune_step p Hp) as [Hs Hl].
   destruct (decode_rune p) as [ru size]. cbn [snd] in *.
   destruct (must && (ru =? RUNE_ERROR) && (size <=? 1)); [eexists; reflexivity|].
+  destruct (ru =? 0); [eexists; reflexivity|].
   destruct ((p0 =? HASH) && negb (is_empty t)); [eexists; reflexivity|].
   (* the prev-byte checks: p[1] is read only when plen > 1 *)
   assert (Hchk : exists ok,
@@ -121,6 +125,7 @@ Proof.
   destruct (rune_step p Hp) as [Hs Hl].
   destruct (decode_rune p) as [ru size]. cbn [snd] in *.
   destruct ((ru =? RUNE_ERROR) && (size <=? 1)); [eexists; reflexivity|].
+  destruct (ru =? 0); [eexists; reflexivity|].
   destruct ((size =? 1) && (p0 =? SLASH)).
   { rewrite slice_from_ok by (subst p; rewrite len_cons; lia). cbn [bind].
     apply valid_topic_filter_impl_total. }
